@@ -13,6 +13,7 @@ use crate::{
         },
         SemanticState,
     },
+    util,
 };
 
 #[derive(PartialEq, Eq, Debug, Clone, Hash)]
@@ -87,6 +88,19 @@ pub fn convert_grammar_functions_to_semantic_functions(
             );
         }
         make_padding_functions(&mut output, size);
+    }
+
+    // Every slot is a field of the vftable struct: the names must be distinct, placeholders included.
+    for (index, function) in output.iter().enumerate() {
+        if output[..index]
+            .iter()
+            .any(|f| util::plain_ident(&f.name) == util::plain_ident(&function.name))
+        {
+            anyhow::bail!(
+                "vftable function `{}` is defined more than once",
+                function.name
+            );
+        }
     }
 
     fn make_padding_functions(output: &mut Vec<Function>, target_len: usize) {
